@@ -150,6 +150,12 @@ def run(ck):
         s = ck.harness(hb, ["replay", "hxclient", uniq, "--out", trace], f"replay_{name}")
         ck.absorb(s, classify)
         _validate(ck, trace, "replay", uniq)
+        # the same environment sequences under production-like driving: schedule_pending_requests only
+        # when the handler asks for it, otherwise only its own timers / wakers (paused clock)
+        trace = f"{ck.work}/replay_{name}_auto.trace.ndjson"
+        s = ck.harness(hb, ["replay", "hxclient", uniq, "--out", trace, "--auto", 1], f"replay_{name}_auto")
+        ck.absorb(s, classify)
+        _validate(ck, trace, "replay-auto", uniq)
     # 3. impl -> spec: seeded random runs
     trace = f"{ck.work}/record.trace.ndjson"
     s = ck.harness(hb, ["record", "hxclient", "--seed", ck.seed, "--runs", 300 if ck.quick else 4000, "--out", trace],
@@ -163,7 +169,12 @@ def run(ck):
                       "kind were sent (record)")
     ck.assumptions += ["peer choice among candidates is the handler's (random); the monitor only demands membership",
                        "every handler entry call is followed by polling the callers' receivers (stepend)",
-                       "the harness polls the handler to quiescence in a `poll` step (paused tokio clock)"]
+                       "the harness polls the handler to quiescence in a `poll` step (paused tokio clock)",
+                       "production-like runs (every other recorded run, and a second replay of every TLC behaviour): "
+                       "the handler is polled until Pending after each environment action, then woken only by its own "
+                       "timers/wakers; schedule_pending_requests is called only on Event::SchedulePendingRequests; "
+                       "`quiescent` is emitted when the handler fell asleep (nothing woke it for 250 ms of virtual "
+                       "time) and every sent request has been answered by the environment"]
 
 
 def replay(ck):
@@ -171,6 +182,7 @@ def replay(ck):
     d = json.load(open(ck.replay))
     cfg = ck.cfg_with("Trace_HxClientProp.cfg")
     beh = []
+    auto = ["--auto", 1] if d["class"].get("dir") == "replay-auto" else []
     for i, it in enumerate(d["items"]):
         c = it["case"]
         if isinstance(c.get("behaviour"), dict):
@@ -189,6 +201,6 @@ def replay(ck):
             for b in beh:
                 f.write(json.dumps(b) + "\n")
         trace = f"{ck.work}/replay_beh.trace.ndjson"
-        s = ck.harness(hb, ["replay", "hxclient", cases, "--out", trace], "replay")
+        s = ck.harness(hb, ["replay", "hxclient", cases, "--out", trace] + auto, "replay")
         ck.absorb(s, classify)
-        _validate(ck, trace, "replay", cases)
+        _validate(ck, trace, d["class"].get("dir") or "replay", cases)
